@@ -36,6 +36,8 @@ type seacInfo struct {
 
 func (info *decodeInfo) decodeCharString(code []byte, name string) (*Glyph, error) {
 	const maxStack = 24
+	const maxOps = 1_000_000 // limit on executed tokens, subroutines included
+	numOps := 0
 	stack := make([]float64, 0, maxStack)
 	clearStack := func() {
 		stack = stack[:0]
@@ -101,6 +103,10 @@ glyphLoop:
 		for len(code) > 0 {
 			if len(stack) > maxStack {
 				return nil, errStackOverflow
+			}
+			numOps++
+			if numOps > maxOps {
+				return nil, invalidSince("charstring execution limit exceeded")
 			}
 
 			op := t1op(code[0])
